@@ -78,6 +78,10 @@ class Upper:
     def reset_received(self, code):
         self.log.append(f"R{int(code)}")
 
+    def error_received(self, code):
+        # NCP failure notification (ERROR frame, ACK budget exhausted): "reports its code upward"
+        self.log.append(f"R{int(code)}")
+
     def connection_made(self, p):
         pass
 
